@@ -5,6 +5,7 @@ import (
 	"net/url"
 	"sort"
 	"strings"
+	"sync"
 )
 
 // Device holds the candidate configuration: root -> config -> devices.
@@ -472,4 +473,39 @@ func (d *Device) UnusedObjects(vsys string) []string {
 		}
 	}
 	return res
+}
+
+// Backend puts the device model behind the PAN-OS XML API simulator.
+type Backend struct {
+	mu        sync.Mutex
+	D         *Device
+	Rejected  []string
+	Writes    []string // "action xpath"
+	Commits   int
+	Committed *Device // state at the last commit
+}
+
+func (b *Backend) DevicesXML() string {
+	b.mu.Lock()
+	defer b.mu.Unlock()
+	return b.D.DevicesXML()
+}
+
+func (b *Backend) Apply(action, xpath, element string, q url.Values) string {
+	b.mu.Lock()
+	defer b.mu.Unlock()
+	b.Writes = append(b.Writes, action+" "+xpath)
+	v := b.D.ApplyQuery(action, xpath, element, q)
+	if strings.HasPrefix(v, "rejected") {
+		b.Rejected = append(b.Rejected, action+" "+xpath+": "+v)
+	}
+	return v
+}
+
+func (b *Backend) Commit() bool {
+	b.mu.Lock()
+	defer b.mu.Unlock()
+	b.Commits++
+	b.Committed = b.D.Clone()
+	return true
 }
